@@ -18,7 +18,7 @@ RULE = (
     "increasing / decreasing / irregular / single-sample / two-sample index, with and without units; files read with STOP agreeing "
     "or not, STRT disagreeing, 1.2, wrapped, empty-valued items, text curve, duplicate mnemonics, depths around 3000, STRT/STOP/STEP units disagreeing, read with mnemonic_case='lower', a declared STEP of 0 over a regular and an irregular index); on every write "
     "transition: (a) frame - full snapshot before/after differs only inside the statement's allow-list, VERS untouched; "
-    "(b) repeat - a write following a write with the same options is byte-identical and changes nothing; (c) truth - "
+    "(b) repeat - a write following a write with the same options is byte-identical and changes nothing; (b'') round 8: after any earlier write, the text equals the text of a never-written object of the same root and edits brought to the very same in-memory state (the output is a function of state and options, not of the writes before); (c) truth - "
     "when the index is dirty, read(output) has STRT/STOP = first/last index, STEP = first increment, units = index "
     "unit; deduplication by (snapshot, index_initial, last write); non-trivial = state reached through >= 1 write"
 )
